@@ -302,7 +302,17 @@ def main():
     known_lines = []
     for k in known:
         mod = importlib.import_module(f'harness.suites.{k["suite"]}')
-        if mod.known_reproduces(k):
+        try:
+            reproduces = mod.known_reproduces(k)
+        except Exception:
+            # the recorded history can no longer be played on the current source: the code around the
+            # finding changed.  That is a broken tie (not a violation by itself), never a crash of the check
+            reproduces = False
+            disagreements.append({'suite': k['suite'], 'where': f'replay of known finding {k.get("id", "")}',
+                                  'code': traceback.format_exc()[-1500:],
+                                  'model': 'the recorded history of the known finding is replayable'})
+            tie_broken = True
+        if reproduces:
             known_lines.append(f'KNOWN-FINDING: property={pid} {k["what"]}')
     new_violations = []
     for m, v in violations:
